@@ -153,7 +153,7 @@ func (c *fxCtx) callAct(call *ast.CallExpr, deferred bool) string {
 			return ".call " + fxStr("defer "+f.Name)
 		}
 		if f.Name == "close" && len(call.Args) == 1 {
-			return ".chclose " + fxStr(exprString(call.Args[0]))
+			return ".chclose " + fxStr(c.typed(call.Args[0]))
 		}
 		return ".call " + fxStr(f.Name)
 	case *ast.FuncLit:
@@ -163,6 +163,30 @@ func (c *fxCtx) callAct(call *ast.CallExpr, deferred bool) string {
 		return ".call \"func literal\""
 	}
 	return ".call " + fxStr(exprString(call.Fun))
+}
+
+// typed: an expression rendered with the root variable of a selector chain replaced by the name of its type
+// (c.Session.SMState.Inbound -> Client.Session.SMState.Inbound, t.isSecure -> XMPPTransport.isSecure): the names of
+// locals and receivers do not show in the skeleton
+func (c *fxCtx) typed(e ast.Expr) string {
+	switch x := e.(type) {
+	case *ast.SelectorExpr:
+		return c.typed(x.X) + "." + x.Sel.Name
+	case *ast.Ident:
+		if c.info != nil {
+			if obj, ok := c.info.Uses[x].(*types.Var); ok && !obj.IsField() {
+				t := obj.Type()
+				if p, ok := t.(*types.Pointer); ok {
+					t = p.Elem()
+				}
+				if n, ok := t.(*types.Named); ok {
+					return n.Obj().Name()
+				}
+			}
+		}
+		return x.Name
+	}
+	return exprString(e)
 }
 
 // constArgs: "(a,b)" when every argument of the call is a constant or a literal (updateState(StateSessionEstablished),
@@ -231,7 +255,7 @@ func (c *fxCtx) acts(n ast.Node) []string {
 		case *ast.UnaryExpr:
 			walk(x.X)
 			if x.Op == token.ARROW {
-				out = append(out, ".call "+fxStr("<-"+exprString(x.X)))
+				out = append(out, ".call "+fxStr("<-"+c.typed(x.X)))
 			}
 			return
 		}
@@ -270,7 +294,7 @@ func (c *fxCtx) stmts(list []ast.Stmt, k string) string {
 		var labs []string
 		for _, r := range x.Results {
 			acts = append(acts, c.acts(r)...)
-			labs = append(labs, exprString(r))
+			labs = append(labs, c.typed(r))
 		}
 		return wrapActs(acts, "(.ret "+fxStr(strings.Join(labs, ", "))+")")
 	case *ast.BranchStmt:
@@ -314,7 +338,7 @@ func (c *fxCtx) stmts(list []ast.Stmt, k string) string {
 		if x.Tok == token.ASSIGN && len(x.Lhs) == 1 && len(x.Rhs) == 1 {
 			if sel, ok := x.Lhs[0].(*ast.SelectorExpr); ok {
 				if id, ok := x.Rhs[0].(*ast.Ident); ok && (id.Name == "true" || id.Name == "false" || id.Name == "nil") {
-					acts = append(acts, ".call "+fxStr("set "+exprString(sel)+"="+id.Name))
+					acts = append(acts, ".call "+fxStr("set "+c.typed(sel)+"="+id.Name))
 				}
 			}
 		}
@@ -324,7 +348,7 @@ func (c *fxCtx) stmts(list []ast.Stmt, k string) string {
 		if x.Tok == token.DEC {
 			op = "dec "
 		}
-		return wrapActs(append(c.acts(x.X), ".call "+fxStr(op+exprString(x.X))), kk)
+		return wrapActs(append(c.acts(x.X), ".call "+fxStr(op+c.typed(x.X))), kk)
 	case *ast.DeclStmt:
 		var acts []string
 		if gd, ok := x.Decl.(*ast.GenDecl); ok {
@@ -339,14 +363,14 @@ func (c *fxCtx) stmts(list []ast.Stmt, k string) string {
 		return wrapActs(acts, kk)
 	case *ast.SendStmt:
 		acts := append(c.acts(x.Value), c.acts(x.Chan)...)
-		acts = append(acts, ".chsend "+fxStr(exprString(x.Chan)))
+		acts = append(acts, ".chsend "+fxStr(c.typed(x.Chan)))
 		return wrapActs(acts, kk)
 	case *ast.GoStmt:
 		var acts []string
 		for _, a := range x.Call.Args {
 			acts = append(acts, c.acts(a)...)
 		}
-		name := exprString(x.Call.Fun)
+		name := c.typed(x.Call.Fun)
 		if _, ok := x.Call.Fun.(*ast.FuncLit); ok {
 			name = "func literal"
 		}
@@ -532,7 +556,7 @@ func (c *fxCtx) stmtActs(s ast.Stmt) []string {
 		return c.acts(x.X)
 	case *ast.SendStmt:
 		acts := append(c.acts(x.Value), c.acts(x.Chan)...)
-		return append(acts, ".chsend "+fxStr(exprString(x.Chan)))
+		return append(acts, ".chsend "+fxStr(c.typed(x.Chan)))
 	case *ast.DeclStmt:
 		var acts []string
 		if gd, ok := x.Decl.(*ast.GenDecl); ok {
